@@ -216,7 +216,7 @@ partial def showExp (v : View) (lid : Nat) (env : List String) : Val → String
             | some (_, _, k) => env.getD k "?"
             | none =>
               match args.getD idx .nd with
-              | .d => if dirty then "e" else "d"
+              | .d => if dirty && v.st.dirty.contains g then "e" else "d"
               | a => showExp v lid env a
           s!"f{g}(" ++ ",".intercalate rendered ++ ")"
 
@@ -258,6 +258,54 @@ def forestOf (st : DSt) (rootId : Nat) : Forest :=
 def pathOf (f : Forest) (rootId : Nat) (fuel : Nat) (n : Nat) : String :=
   "/".intercalate ((f.chain fuel n).reverse.map fun i => if i == rootId then "w" else s!"n{i}")
 
+structure LvlRun where
+  rs0 : RS
+  rs : RS
+  fin : String
+  below : List (List (Nat × RS × RS × String))
+  md : List Nat
+
+/-- The resumed run of level `lid` (head of the result) and of everything below it.
+`envChanged k`: the value of macro input `k` of this level differs from the one of the first run.
+A macro child whose sub-graph now ends in a different value, a `UserInput` child / value-linked child
+fed by a changed macro input, and a leaf that got new inputs are nodes whose function changed.
+Which macro children changed is only known after they have been run with the inputs this level
+gives them: iterate (the macro children of a level form a DAG, so this settles). -/
+partial def resumeTree (st : DSt) (cuts : List LvlCut) (lid : Nat) (envChanged : List Bool) :
+    List (Nat × RS × RS × String) :=
+  match cuts.find? (fun (c : LvlCut) => c.l.id == lid) with
+  | none => []
+  | some c =>
+    let l := c.l
+    let dl := reloadDag st.rc c.parent.isNone c.d
+    let d2 : Dag := { slots := dl.slots, down := fun i => l.down2.getD i [], starters := l.starters2,
+                      onExec := fun i => l.exec2.getD i false, fails := fun _ => false }
+    let envDirty : Nat → Bool := fun i =>
+      (match l.ui.find? (·.1 == i) with | some (_, k) => envChanged.getD k false | none => false) ||
+      l.vlink.any (fun (x : Nat × Nat × Nat) => x.1 == i && !l.isMacro i && envChanged.getD x.2.2 false)
+    let runWith : List Nat → LvlRun := fun macroDirty =>
+      let fx : Fix := { dirty := fun i => st.dirty.contains i || envDirty i || macroDirty.contains i, off := st.n }
+      let rs0 := resumeFromC st.rc l.isMacro d2 c.s
+      let (rs, fin) := drive (·.s) (rstep fx Cfg.repaired d2) (fun _ _ => false) (fuelOf l.f.n) rs0 l.sched2 0 0
+      let below : List (Nat × Nat × List (Nat × RS × RS × String)) := l.macros.map fun (p : Nat × Nat) =>
+        let g := p.1
+        let a1 := c.s.args g
+        let a2 := rs.s.args g
+        let ch : List Bool := (List.range (max a1.length a2.length)).map fun idx =>
+          match l.vlink.find? (fun (x : Nat × Nat × Nat) => x.1 == g && x.2.1 == idx) with
+          | some (_, _, k) => envChanged.getD k false
+          | none => c.s.st g != St.idle && decide (a1.getD idx Val.nd ≠ a2.getD idx Val.nd)
+        (g, p.2, resumeTree st cuts p.2 ch)
+      let md : List Nat := (below.filter fun (q : Nat × Nat × List (Nat × RS × RS × String)) =>
+        match q.2.2, cuts.find? (fun (c2 : LvlCut) => c2.l.id == q.2.1) with
+        | (_, _, rs2, _) :: _, some c2 =>
+          c.s.st q.1 == St.done && decide (c2.s.out c2.l.outNode ≠ rs2.s.out c2.l.outNode)
+        | _, _ => false).map (·.1)
+      { rs0, rs, fin, below := below.map (·.2.2), md }
+    let guess := (List.range (l.macros.length + 1)).foldl (fun g _ => (runWith g).md) []
+    let r := runWith guess
+    (l.id, r.rs0, r.rs, r.fin) :: r.below.flatten
+
 /-! ### one case -/
 
 def runCase (st : DSt) : List String :=
@@ -270,28 +318,10 @@ def runCase (st : DSt) : List String :=
     let cuts := assign ls st.cut depthFuel root rootMode none
     let cutOf := fun lid => cuts.find? (·.l.id == lid)
     let parentOf := fun lid => (cutOf lid).bind (·.parent)
-    -- dirty: leaves named by the case, and every macro with a dirty node inside
-    let rec dirtyLevel (fuel : Nat) (lid : Nat) : Bool :=
-      match fuel with
-      | 0 => false
-      | fuel + 1 =>
-        match findLevel ls lid with
-        | none => false
-        | some l => l.own.any (fun i => st.dirty.contains i) ||
-                    l.macros.any (fun (_, lid2) => dirtyLevel fuel lid2)
-    -- the resumed run of every level
-    let resumed := cuts.map fun c =>
-      let l := c.l
-      let dl := reloadDag st.rc c.parent.isNone c.d
-      let d2 : Dag := { slots := dl.slots, down := fun i => l.down2.getD i [], starters := l.starters2,
-                        onExec := fun i => l.exec2.getD i false, fails := fun _ => false }
-      let fx : Fix :=
-        { dirty := fun i => st.dirty.contains i ||
-            (match l.macros.find? (·.1 == i) with | some (_, lid2) => dirtyLevel depthFuel lid2 | none => false),
-          off := st.n }
-      let rs0 := resumeFromC st.rc l.isMacro d2 c.s
-      let (rs, fin) := drive (·.s) (rstep fx Cfg.repaired d2) (fun _ _ => false) (fuelOf l.f.n) rs0 l.sched2 0 0
-      (l.id, rs0, rs, fin)
+    -- the resumed run of every level, inner levels first: a macro that had completed before the cut and
+    -- whose sub-graph now ends in a different value (a leaf inside got new inputs, or the reload changed
+    -- the fetch priority inside) is a node whose function changed
+    let resumed := resumeTree st cuts root.id []
     let resOf := fun lid => resumed.find? (·.1 == lid)
     let viewCut : View :=
       { st, outs := fun lid i => match cutOf lid with | some c => c.s.out i | none => .nd,
